@@ -537,6 +537,105 @@ def check_duplicate_path(case, ev=None, scratch=None):
             scratch.clean()
 
 
+# ---- an accepted module imported inside the function body only ------------------------------------------------------------
+
+LOCMOD_MAIN = """import dds
+import vlog
+
+
+@dds.data_function('/lm/out')
+def f():
+    vlog.rec('f')
+    import {imp}
+    return ('f', {ref}.g(), {ref}.LZ)
+"""
+LOCMOD_HELPER = "import vlog\n\nLZ = {lz}\n\n\ndef g():\n    vlog.rec('g')\n    return ('g', {ver}, LZ)\n"
+
+
+def locmod_strategy():
+    from hypothesis import strategies as st
+
+    return st.fixed_dictionaries({
+        "locmod": st.just("top"),     # `import lmhelper` (a sub-module first imported inside a function does not exist yet when dds analyses the code: refused, see C11)
+        "store": st.sampled_from([["memory", None], ["local", None], ["local-lru", 2]]),
+        "edits": st.lists(st.tuples(st.sampled_from(["lz", "ver", "none"]), st.booleans()).map(list), min_size=1, max_size=3),
+    })
+
+
+def check_local_module_import(case, ev=None, scratch=None):
+    """The helper module is only imported inside the body of the kept function (un-aliased `import name`): its function and its
+    variable are dependencies like any other - edits must be seen, in the same process or in a fresh one."""
+    from ..harness import proc
+    import os
+
+    own = scratch is None
+    scratch = scratch or common.Scratch("vf-c01")
+    root_dir, store_dir = scratch.sub(), scratch.sub()
+    top = case["locmod"] == "top"
+    imp, ref = ("lmhelper", "lmhelper") if top else ("pk.sub", "pk.sub")
+    helper_rel = "lmhelper.py" if top else "pk/sub.py"
+    lz, ver = 1, 0
+    mt = [1600000000]
+    tag = f"[helper module imported inside the function body: import {imp} / {case['store'][0]}]"
+
+    def files():
+        return {"pk/__init__.py": "", "pk/m0.py": LOCMOD_MAIN.format(imp=imp, ref=ref), helper_rel: LOCMOD_HELPER.format(lz=lz, ver=ver)}
+
+    for rel, content in files().items():
+        pth = os.path.join(root_dir, rel)
+        os.makedirs(os.path.dirname(pth), exist_ok=True)
+        open(pth, "w").write(content)
+        os.utime(pth, (mt[0], mt[0]))
+    if case["store"][0] == "memory":
+        case = dict(case, edits=[[e, True] for e, _ in case["edits"]])
+    w = [proc.Worker()]
+    accepted = ["pk", "lmhelper"] if top else ["pk"]
+
+    def init():
+        w[0].call("init", root=root_dir, accepted=accepted, store={"kind": case["store"][0], "dir": store_dir, "cache": case["store"][1]})
+
+    try:
+        init()
+        seen = set()
+
+        def evaluate(step):
+            r = w[0].call("eval", module="pk.m0", func="f", style="direct")
+            if r["exc"] is not None:
+                raise Violation(f"{tag} step {step}: evaluation raised {r['exc']['type']}: {r['exc']['msg'][:300]}", case)
+            want = ("f", ("g", ver, lz), lz)
+            if r["value"] != want:
+                raise Violation(f"{tag} step {step}: returned {r['value']!r} but plain execution gives {want!r}; edits={case['edits']}", case)
+            if (lz, ver) in seen and "f" in r["log"]:
+                raise Violation(f"{tag} step {step}: the kept function ran again although nothing changed (log={r['log']})", case)
+            seen.add((lz, ver))
+
+        evaluate(-1)
+        for si, (ed, inproc) in enumerate(case["edits"]):
+            if ed == "lz":
+                lz += 1
+            elif ed == "ver":
+                ver += 1
+            mt[0] += 10
+            if inproc:
+                w[0].call("write_files", files=files(), reload=False, mtime=mt[0])
+                w[0].call("call", module="vf.harness.session", func="_reload_present", args=[["lmhelper", "pk", "pk.sub", "pk.m0"]])
+            else:
+                for rel, content in files().items():
+                    pth = os.path.join(root_dir, rel)
+                    open(pth, "w").write(content)
+                    os.utime(pth, (mt[0], mt[0]))
+                w[0].close()
+                w[0] = proc.Worker()
+                init()
+            evaluate(si)
+        if ev is not None:
+            ev.case(case, any(e != "none" for e, _ in case["edits"]), features=["function-local-module-import", "locmod:" + case["locmod"]])
+    finally:
+        w[0].close()
+        if own:
+            scratch.clean()
+
+
 def gen_opts():
     return {"exclude": common.open_features(ID), "loads": False, "nested_args": True}
 
@@ -557,6 +656,8 @@ def shard(idx, n, tier, seed, count):
 
     try:
         v = common.hyp_drive(history_strategy(opts), check, seed * 1000 + 100 + idx, count, ev)
+        if v is None and idx % 4 == 2:
+            v = common.hyp_drive(locmod_strategy(), lambda c: check_local_module_import(c, ev, scratch), seed * 1000 + 170 + idx, max(3, count // 8), ev)
         if v is None and idx % 4 == 0:
             v = common.hyp_drive(dup_strategy(), lambda c: check_duplicate_path(c, ev, scratch), seed * 1000 + 150 + idx, max(3, count // 8), ev)
     finally:
@@ -572,6 +673,8 @@ def run(tier, seed, scale=1.0):
 
 
 def replay(case):
+    if "locmod" in case:
+        return check_local_module_import(case)
     if "dup" in case:
         check_duplicate_path(case)
     else:
